@@ -192,6 +192,23 @@ def run(ctx):
         else:
             n4 = rng.randint(2, 4)
             cases.append({"kind": "spec", "n": n4, "s": gen_sent(rng, n4, 3, 4)})
+    # sentence products (appended last so that the streams above stay as they were)
+    one = [1, 1, 0, 1]
+    cases.append({"kind": "shom", "m": "JW", "n": 4, "s": [[[], one], [[[0, 1], [0, 0]], one]],
+                  "t": [[[], one], [[[0, 1], [0, 0]], one]]})                    # (1 + n0)^2: two pairs give n0
+    cases.append({"kind": "shom", "m": "BK", "n": 4, "s": [[[[0, 1]], one], [[[0, 1], [1, 0]], [2, 1, 0, 1]]],
+                  "t": [[[[1, 0], [2, 0]], [3, 1, 0, 1]], [[[2, 0]], [1, 2, 0, 1]]]})
+    cases.append({"kind": "shom", "m": "PT", "n": 4, "s": [[[], one], [[[0, 1], [0, 0]], one]],
+                  "t": [[[], one], [[[0, 1], [0, 0]], one]]})
+    for _ in range(40 if quick else 400):
+        m = rng.choice(MAPS)
+        nm = rng.choice([2, 3, 4])
+        s1, s2 = gen_sent(rng, nm, 3, 2), gen_sent(rng, nm, 3, 2)
+        if rng.random() < 0.5:                 # force colliding word products: an identity term on both sides
+            s1, s2 = [[[], gen_coef(rng)]] + [t for t in s1 if t[0]], [[[], gen_coef(rng)]] + [t for t in s2 if t[0]]
+            if rng.random() < 0.5 and len(s1) > 1:
+                s2 = s2[:1] + [s1[1]] + [t for t in s2[1:] if t[0] != s1[1][0]]
+        cases.append({"kind": "shom", "m": m, "n": rng.randint(nm, 5), "s": s1, "t": s2})
     obs = ctx.run_impl("c53_impl.py", {"cases": cases})
 
     hdr = "From PLV Require Import Disc.FermiModel.\nRequire Import QArith."
@@ -213,11 +230,12 @@ def run(ctx):
         for i in ctx.coq_eval_cases("fcases", hdr, [t for _, t in fc], "check_fcase"):
             ctx.violation("fcorr:" + json.dumps(fc[i][0], sort_keys=True), {"case": fc[i][0]},
                           what="FermiWord product/adjoint differs from the model")
-    hist = {k: 0 for k in ["map_word", "map_sent", "errors", "wire_map", "hom", "adj", "shift", "shift_multi", "lin", "car", "spec"]}
+    hist = {k: 0 for k in ["map_word", "map_sent", "errors", "wire_map", "hom", "adj", "shift", "shift_multi", "lin", "car", "spec", "shom"]}
     hist.update({m: 0 for m in MAPS})
     distinct = set()
     WHAT = {"map": "wire_map/tol changes the image", "hom": "map(u*v) != map(u) @ map(v)",
-            "adj": "map(adjoint) != adjoint(map)", "shift": "anticommutation rewriting (shift_operator) changes the image",
+            "adj": "map(adjoint) != adjoint(map)",
+            "shom": "map(S*T) != map(S) @ map(T) for Fermi sentences (or S**2, S*word)", "shift": "anticommutation rewriting (shift_operator) changes the image",
             "lin": "mapping is not linear", "car": "canonical anticommutation relations violated",
             "spec": "the three mappings give different spectra"}
     for c, o in zip(cases, obs):
@@ -244,7 +262,7 @@ def run(ctx):
                                  "(<=5 distinct words, dyadic real/complex coefficients) on <=6 modes, mapping uniform in "
                                  "JW/PT/BK, register n in [max orbital+1, 8] with ~12% too-small registers (error path); "
                                  "30% of cases also run with a random wire_map and tol=1e-8; non-trivial = image with >1 term; "
-                                 "direct-oracle stream: CAR for every n, hom/adj/shift/lin/spec",
+                                 "direct-oracle stream: CAR for every n, hom/adj/shift/lin/spec/shom (sentence products with colliding word pairs)",
                          "input_distribution": hist})
     for c, o in list(zip(cases, obs))[:3] + list(zip(cases, obs))[n_maps + 20:n_maps + 22]:
         ctx.sample({"case": c, "observed": o})
